@@ -18,3 +18,17 @@ package core
 //@   ensures tries <= 2
 //@   ensures tries >= 1 && firstErr ==> tries == 2 && (!lastErr || forced)
 //@   ensures tries >= 1 && !firstErr ==> tries == 1
+
+// C06: destroy = teardown (retried once with force), then - unless the caller keeps the tasks - a kill request for every
+// task of the workflow; a teardown that fails even with force is answered with an error status, never with success.
+//@ func (m *RpcServer) doTeardownAndCleanup(env *environment.Environment, force bool, keepTasks bool) (reply *pb.DestroyEnvironmentReply, err error)
+//@   property C06
+//@   ghostvar tdErr bool = false
+//@   ghostvar retried bool = false
+//@   ghostvar cleaned bool = false
+//@   on aftercall (*environment.Manager).TeardownEnvironment : tdErr = (result != nil)
+//@   on call (*RpcServer).doTeardownAndCleanup : assert tdErr && !force && arg2 && arg3 == keepTasks ; retried = true
+//@   on call (*RpcServer).doCleanupTasks : assert !tdErr && !keepTasks ; cleaned = true
+//@   ensures tdErr && force ==> err != nil
+//@   ensures !tdErr && !keepTasks ==> cleaned
+//@   ensures keepTasks ==> !cleaned
